@@ -131,7 +131,7 @@ func (f *SubstituteIf) Call(s *slip.Scope, args slip.List, depth int) (result sl
 }
 
 func parseSubstituteIfArgs(f slip.Object, s *slip.Scope, args slip.List, depth int) *subIfRep {
-	slip.CheckArgCount(s, depth, f, args, 3, 15)
+	slip.CheckArgCount(s, depth, f, args, 3, 13)
 	sr := subIfRep{
 		s:     s,
 		rep:   args[0],
